@@ -1437,4 +1437,26 @@ theorem convItems_snoc (cfg : Cfg) : ∀ (its : List (Name × PVal)) (k : Name) 
     · simp at h
     · exact convItems_snoc cfg r k v _ t h
 
+/-! ### pop with a default -/
+
+/-- every level down to the last component exists, and the last component is not an entry of its level -/
+def AbsentLast : Kvs → List Name → Prop
+  | _, [] => False
+  | kvs, [m] => lookupK m kvs = none
+  | kvs, m :: c :: r => ∃ sub, lookupK m kvs = some (.node sub) ∧ AbsentLast sub (c :: r)
+
+/-- **`pop( path, default )` of an absent entry of an existing level returns the default and changes
+nothing, at any depth** (`.ok none` is "the default was returned"). -/
+theorem popK_default_absent : ∀ (segs : List Name) (kvs : Kvs), AbsentLast kvs segs →
+    popK kvs segs none true = (kvs, .ok none)
+  | [], _, h => absurd h (by simp [AbsentLast])
+  | [m], kvs, h => by
+    simp only [AbsentLast] at h
+    simp [popK, h]
+  | m :: c :: r, kvs, h => by
+    obtain ⟨sub, hl, hs⟩ := h
+    have ih := popK_default_absent (c :: r) sub hs
+    rw [popK]
+    simp only [reduceCtorEq, false_and, if_false, hl, ih, insertK_same_val m _ kvs hl]
+
 end Cpppo.Dotdict
